@@ -97,9 +97,16 @@ def history_plan(rng, tier, levels, silent_streak=False, identity_changes=True, 
             mine[0]["cancel_ns"] = rng.choice([501, 1_500_001, 3_000_001, 5_000_001])
             opid += 1
             mine.append({"id": opid, "s": s, "op": "refresh"})
+        direct = len(mine) == 1 and "engine_id" not in sessions[s] and "via" not in mine[0] and not silent_streak and rng.random() < 0.15
+        if direct:
+            # the application never enters the session nor calls refresh(): the first operation has to run
+            # the engine id discovery by itself (its exchanges: discovery, time sync, then the request)
+            opid -= 1
+            mine.pop()
         n = rng.randint(2, 6 if tier == "quick" else 14)
         if long_run:
             n = long_run
+        first_data_op = direct
         for j in range(n):
             opid += 1
             r = rng.random()
@@ -132,6 +139,10 @@ def history_plan(rng, tier, levels, silent_streak=False, identity_changes=True, 
             mine.append(op)
             r = rng.random()
             key = "%d:1" % opid
+            if first_data_op:
+                first_data_op = False
+                op["direct_use"] = True
+                continue  # its three exchanges run clean
             if r < 0.12:
                 scripts[key] = {"replies": [{"k": "none"}]}
             elif r < 0.2:
@@ -203,6 +214,22 @@ def hi_entropy_oid(rng):
     return "1.3.6.1.4.1.%d.%d.%d" % (rng.randrange(2**28, 2**32), rng.randrange(2**28, 2**32), rng.randrange(0, 100))
 
 
+def preliminary_count(run, s, res, deferred_at_start):
+    """Number of leading exchanges of an operation that are the session's own engine id discovery /
+    time synchronisation (empty Get requests) rather than the operation's request: an operation on a
+    session that has not discovered its engine yet runs the discovery first (at most two exchanges)."""
+    if not deferred_at_start or res["op"]["op"] == "refresh":
+        return 0
+    pre = 0
+    for ex in run.exchanges(res)[:2]:
+        d = run.wire_dec.get((s, ex["serial"]), {})
+        if d.get("ok") and d["pdu"]["type"] == "get" and not d["pdu"]["varbinds"]:
+            pre += 1
+        else:
+            break
+    return pre
+
+
 def iter_v3_tx(run):
     """Yield (s, res, n, ex, dec, raw, tracker_expected, tracker) for every v3 datagram,
     in history order, driving one V3Tracker per session."""
@@ -215,6 +242,7 @@ def iter_v3_tx(run):
         tr = trackers.get(s)
         if tr is None:
             tr = trackers[s] = V3Tracker(run, s)
+        tr.pre = preliminary_count(run, s, res, tr.deferred)
         for n, ex in enumerate(run.exchanges(res)):
             dec = run.wire_dec[(s, ex["serial"])]
             raw = bytes.fromhex(ex["hex"])
